@@ -155,18 +155,20 @@ TECH = "TLC-generated schedules replayed on the real gateway under gates; record
 TEXT = {
     "C01": _t("At every quiescent point of every replayed schedule TLC evaluates, on the recorded trace, that the reference client's copy equals the state announced over the MQ boundary (all value kinds, three protocol versions, shared resources).", TECH),
     "C02": _t("After every client frame of every replayed schedule TLC checks on the trace that the reference client has no dangling reference and that every event is applicable (held resource, kind, index range).", TECH),
-    "C03": _t("Sequence-numbered custom and change events: TLC checks order, duplicates, gaps at delivery time and completeness at quiescence per (client, resource) holding period.", TECH),
+    "C03": _t("spec/SubQueue.tla (one subscription's event queue under every interleaving of events, loading, new references, re-check triggers, access answers and the client leaving) is model-checked exhaustively for NoLossNoReorder and IdleDrained; every queue note of the replayed gateway schedules is replayed per subscription object through the same operators (spec/SubQueueTrace.tla: path of every event, processed only when not queueing and only as the received event or the queue head, flags and lengths). At the client boundary: sequence-numbered custom and change events - order, duplicates, gaps at delivery time, completeness at quiescence per (client, resource) holding period, and no event for a resource the client does not hold (before it is handed over / after release).",
+              "TLC exhaustive on SubQueue.tla + per-note conformance (SubQueueTrace.tla) + observer rules on gateway traces"),
     "C04": _t("Access ledger in the observer: every response that hands a root resource to a client must be backed by a get grant answered for that connection that no processed trigger has invalidated.", TECH),
     "C05": _t("Every call forwarded to a service must be backed by a valid grant allowing the method; every access/call/auth request must carry the connection's current token.", TECH),
-    "C06": _t("After each processed trigger on a directly subscribed resource: an access request follows, nothing handed over after the trigger is delivered before the verdict, a refusal ends in an unsubscribe event with the reason.", TECH),
+    "C06": _t("spec/SubQueue.tla is model-checked for TriggerKept / DeferredOnlyWhileQueueing / Rechecked (a trigger is never forgotten and leads to an access request or the end of the subscription); SubQueueTrace.tla checks on every gateway trace that a re-check is never started while queueing, is deferred only while queueing and that the deferred flag equals the model's. At the boundary, after each processed trigger on a directly subscribed resource: an access request sent after the trigger follows, nothing handed over after the trigger is delivered before the verdict, a refusal ends in an unsubscribe event with the reason; after a token change every direct subscription is re-checked.",
+              "TLC exhaustive on SubQueue.tla + per-note conformance (SubQueueTrace.tla) + observer rules on gateway traces"),
     "C07": _t("Pending-request ledger: no response for an unknown id, none twice, none missing at quiescence, error shape.", TECH),
     "C08": _t("Per (connection, rid) counter of confirmed direct subscriptions compared with the gateway's snapshot at quiescence; every unsubscribe outcome predicted from the counter.", TECH),
     "C09": _t("MQ boundary rules (get only under an established event subscription, no duplicate subscription), use count = subscribers at quiescence, nothing left after the (fake-time) eviction delay, gauges zero.", TECH),
     "C10": _t("Every client frame scanned for every live connection id; every connection-bound request must carry the id of a live connection and its token.", TECH),
     "C11": _t("Disconnects at arbitrary points of the schedules; after the connection's conn subscription is removed no request may carry its id, it must be gone from the snapshot, use counts must match subscribers.", TECH),
     "C13": _t("Query families: aliasing queries, query events with every answer kind; convergence (C01 predicate) per alias rid, lock released at quiescence, no stall.", TECH),
-    "C12": _t("Pattern matching and both diff routines are checked exhaustively over bounded domains against definitional TLA+ modules (spec/fn/ResPattern.tla, ResDiff.tla); the protocol part (re-fetch of exactly the matching cached resources, convergence after silent mutations + reset) is checked on replayed schedules by the observer.",
-              "exhaustive function tables checked by TLC against spec/fn + TLC-generated schedules with resets validated by the observer spec",
+    "C12": _t("spec/ResSub.tla (cached content against an ordered service channel: initial get, state / custom events, silent mutations revealed by resets, re-fetch) is model-checked exhaustively: no gap, subscribers told what the cache holds, convergence, one re-fetch at a time, every reset eventually re-fetched. Pattern matching and both diff routines are checked exhaustively over bounded domains against definitional TLA+ modules (spec/fn/ResPattern.tla, ResDiff.tla); the protocol part (re-fetch of exactly the matching cached resources, convergence after silent mutations + reset) is checked on replayed schedules by the observer.",
+              "TLC exhaustive on ResSub.tla + exhaustive function tables checked by TLC against spec/fn + TLC-generated schedules with resets validated by the observer spec",
               note="Tables: patterns <= 4 (thorough 5) symbols over {a,b,.,*,>,?} plus invalid-character variants x all valid names <= 5 over {a,b,.}; collections <= 3 (4) long over three value tokens; models over 2 (3) keys x 5 value options. " + GW_NOTE),
     "C15": _t("Any panic of the gateway process or failure to reach quiescence in any replayed schedule of any family is a violation; the crashing schedule is the replay.", TECH),
 }
@@ -313,6 +315,29 @@ def subaccess_model(ctx):
 PROPS["C05"] = dict(run=tables.combine(subaccess_model, gateway_run(["access", "win-recheck", "win-indirect"], ["mreq", "note"]), tables.tables_run(["calllist"], "CanCall")))
 TEXT["C05"] = _t("spec/SubAccess.tla (the subscription's access cache: one request in flight, waiting callers, cached answer, reaccess in epochs) is model-checked exhaustively: the cached answer was requested in the current epoch, no request is decided on an answer requested before the last reaccess that preceded it, every request is decided; the same module with Repaired = FALSE reproduces the repaired defect. Every access-cache note of the replayed gateway schedules is replayed through the same transitions (spec/SubAccessTrace.tla). The observer's access ledger requires for every forwarded call (attributed to client requests in FIFO order) a valid answer allowing the method ('*' or an exact entry), not invalidated by a processed trigger and not requested before a token change that it was handed over after; every access / call / auth request carries the connection's processed token. CanCall is checked exhaustively as a table against spec/fn/CallList.tla.",
                  "TLC exhaustive on SubAccess.tla + per-note conformance (SubAccessTrace.tla) + access ledger on gateway traces + exhaustive CanCall table")
+
+
+def ressub_model(ctx):
+    """Exhaustive TLC run of spec/ResSub.tla (cached content against an ordered service channel, initial get, events, resets)."""
+    import os, shutil
+    from .common import SPEC, tlc, tlc_stats, MachineryError
+    d = os.path.join(ctx.workdir, "ressub-mc")
+    os.makedirs(d, exist_ok=True)
+    shutil.copy(os.path.join(SPEC, "ResSub.tla"), d)
+    ev, rst, cu = (5, 2, 1) if ctx.tier == "quick" else (7, 3, 2)
+    with open(os.path.join(d, "ResSub.cfg"), "w") as f:
+        f.write("SPECIFICATION Spec\nCONSTANTS\n MaxEv = %d\n MaxReset = %d\n MaxCustom = %d\nINVARIANTS Told OneRefetch Converges\nPROPERTIES NoGap Refetched\nCHECK_DEADLOCK FALSE\n" % (ev, rst, cu))
+    p = tlc("ResSub.tla", d, [], timeout=3000, workers=8)
+    if "No error has been found" not in p.stdout:
+        raise MachineryError("ResSub.tla does not satisfy its own properties (model bug):\n" + p.stdout[-2000:])
+    g, dist = tlc_stats(p.stdout)
+    cov = dict(states=dist, transitions=g, samples=[{"model": "spec/ResSub.tla MaxEv=%d MaxReset=%d MaxCustom=%d; invariants Told OneRefetch Converges; action property NoGap; liveness Refetched" % (ev, rst, cu)}],
+               rule="exhaustive TLC on ResSub.tla (design: discarding events before the initial answer and during a re-fetch is sound under FIFO delivery); bound to the code through the observer's C01 / C12 rules and the OneRefetch rule on resetres notes", exhaustive=False)
+    return dict(coverage=cov, violations=[], level="model_checking", assumptions=["everything one service publishes reaches the gateway in publish order"])
+
+
+PROPS["C12"] = dict(run=tables.combine(ressub_model, tables.tables_run(["pattern", "coldiff", "modeldiff"], "reset matching / diff"),
+                                       gateway_run(["stream", "win-load", "win-alias"], ["mreq", "cev"], also=("C01",))))
 
 PROPS["C19"] = dict(run=tables.combine(throttle_model, gateway_run(["thr-ref1", "thr-ref2", "thr-reset1", "thr-reset2"], ["note", "mreq"])))
 TEXT["C19"] = _t("spec/Throttle.tla is model-checked exhaustively (bound, saturation, FIFO hand-over, every added callback eventually starts under any answer order); the real Throttle is driven directly and every Add/Done validated against it; at system level the thrAdd/thrDone notes of replayed schedules with reset/reference throttles of 1 and 2 are checked against the same transition rules, the limit, and emptiness at quiescence.",
